@@ -24,7 +24,7 @@ LEVEL_TEXT = ("Proof + correspondence (PARTIAL for the script-splitting stage): 
 LEVEL_NOTE = ("Trusted: Coq kernel, hand models, harness, our GPOS interpreter (harness/otl.py, written from the OpenType spec; no "
               "HarfBuzz available), glyph->script classification taken from the real classifyGlyphs (whose bidi instance is compared with the Gallina classify of Mark/Direction.v on random substitution graphs), feaLib/otlLib "
               "compilation. Known finding F10 (rule mixing R and L bidi glyphs is dropped whole) is recognised by signature.")
-TECHNIQUE = "Coq model of UFO kerning + lookup semantics with precedence theorem; Coq-evaluated spec on an independent GPOS interpreter's reading of compiled fonts"
+TECHNIQUE = "Coq model of UFO kerning + lookup semantics with precedence theorem; addLookupReferences translated from source and proved equal to its model; Coq-evaluated spec on an independent GPOS interpreter's reading of compiled fonts"
 IMPORTS = "From U2F Require Import Base.Prelude Geometry.Model Kern.Model Kern.Spec."
 RULE = ("fonts with 6-14 glyphs drawn from Latin, Cyrillic, Greek, Arabic, Hebrew, Devanagari letters, European and Arabic-Indic "
         "digits, punctuation, a combining mark and unencoded alternates; kern1/kern2 groups (valid partitions, plus empty, "
